@@ -40,7 +40,7 @@ struct Lock { Spin& s; explicit Lock(Spin& s_) : s(s_) { s.lock(); } ~Lock() { s
 
 static thread_local int tl_depth = 0;
 static thread_local uint32_t tl_api = 0;
-static thread_local unsigned tl_failAt = 0, tl_requests = 0;
+static thread_local unsigned tl_failAt = 0, tl_failAt2 = 0, tl_requests = 0, tl_firedCount = 0;
 static thread_local bool tl_fired = false;
 static thread_local int tl_tag = 0;
 static thread_local bool tl_busy = false; // re-entrancy guard
@@ -63,7 +63,9 @@ Api::~Api() { --tl_depth; }
 void enableGuards(bool on) { g_guards = on; }
 void setGarbageSeed(uint64_t s) { g_garbage = s; }
 void setHugePages(int m) { g_huge = m; }
-void armFault(unsigned k) { tl_failAt = k; tl_requests = 0; tl_fired = false; }
+void armFault(unsigned k) { tl_failAt = k; tl_failAt2 = 0; tl_requests = 0; tl_fired = false; tl_firedCount = 0; }
+void armFault2(unsigned k1, unsigned k2) { tl_failAt = k1; tl_failAt2 = k2; tl_requests = 0; tl_fired = false; tl_firedCount = 0; }
+unsigned faultsFired() { return tl_firedCount; }
 unsigned requestsSeen() { return tl_requests; }
 bool faultFired() { return tl_fired; }
 void tagNextMappings(int tag) { tl_tag = tag; }
@@ -246,7 +248,7 @@ const char* classify(uintptr_t addr, char* buf, size_t buflen) {
 // one allocation request inside an API call: returns true if it must fail
 static bool requestFails() {
 	++tl_requests;
-	if (tl_failAt && tl_requests == tl_failAt) { tl_fired = true; return true; }
+	if ((tl_failAt && tl_requests == tl_failAt) || (tl_failAt2 && tl_requests == tl_failAt2)) { tl_fired = true; ++tl_firedCount; return true; }
 	return false;
 }
 
